@@ -190,7 +190,7 @@ class Var:
 
 def rand_scalar(rng, nonzero=False, allow_0d=False):
     """returns (python-side operand, complex value, kind)"""
-    kinds = ["int", "float", "complex", "np.float64", "np.int64", "np.complex128", "np.float32", "bool"]
+    kinds = ["int", "float", "complex", "np.float64", "np.int64", "np.complex128", "bool"]
     if allow_0d and INCLUDE_0D_ARRAY:
         kinds += ["0d-int"]
     k = str(rng.choice(kinds))
@@ -254,7 +254,7 @@ def make_leaf(u, rng, run):
     elif fk == "complex":
         f = complex(float(rng.choice([-1.0, 0.0, 0.5])), float(rng.choice([-2.0, 0.5, 1.0])))
     elif fk == "np":
-        f = [np.float64(0.75), np.int64(-2), np.complex128(0.5 - 1j), np.float32(0.5)][int(rng.integers(4))]
+        f = [np.float64(0.75), np.int64(-2), np.complex128(0.5 - 1j)][int(rng.integers(3))]
     elif fk == "quantity":
         f = Quantity(float(rng.choice([-0.5, 0.125, 2.0])), "a.u.")
     else:
@@ -305,7 +305,8 @@ def make_leaf(u, rng, run):
         prob = f"dofs {op.dofs} != {dofs}"
     if complex(op.factor) != complex(fval):
         prob = f"factor {op.factor} != {fval}"
-    rep = dict(symbol=symbol, dofs=[repr(d) for d in dofs], factor=repr(f), qn=repr(qn_arg))
+    rep = dict(symbol=symbol, dofs=[repr(d) for d in dofs],
+               factor=(f"Quantity({f.value}, 'a.u.')" if fk == "quantity" else repr(f)), qn=repr(qn_arg))
     return op, m, bound, rep, prob, exp_qn
 
 
@@ -992,8 +993,9 @@ class Program:
 
 
 def search(run, rng, quick):
+    import renormalizer  # noqa: F401  (init_log runs on import)
     logging.getLogger("renormalizer").setLevel(logging.ERROR)
-    ncases = 160 if quick else 2500
+    ncases = 1200 if quick else 30000
     nontrivial = set()
     evals = 0
     for case in range(ncases):
